@@ -72,7 +72,7 @@ def mutate(rng, b):
     return bytes(b)
 
 
-def prepare(ctx, uid, spec, codec, n_values, n_fuzz, rng, fixed_cases=None):
+def prepare(ctx, uid, spec, codec, n_values, n_fuzz, rng, fixed_cases=None, extra_inputs=None):
     """Everything that needs /repo's Python: generation, parsing, values, the
     expected results.  Returns a Prep (p.unit is None when nothing is to run)."""
     p = Prep()
@@ -161,6 +161,12 @@ def prepare(ctx, uid, spec, codec, n_values, n_fuzz, rng, fixed_cases=None):
                     if r[0] == 'ok' and len(r[1]) < 100000:
                         fuzz.append((ti, bytes(r[1])))
                         must_reject.add(len(fuzz) - 1)
+    # inputs with a prescribed outcome: (type name, bytes, expected struct dump) - e.g. bytes of a newer version
+    p.must_decode = {}
+    for tn, data, want in (extra_inputs or []):
+        ti = [n for _, n in types].index(tn)
+        fuzz.append((ti, data))
+        p.must_decode[len(fuzz) - 1] = want
     p.fuzz = fuzz
     files = {'ns.h': header, 'ns.c': source, 'driver.c': drv}
     p.unit = c09_cc.Unit(uid, files, 'ns.c', 'driver.c',
@@ -327,6 +333,22 @@ def has_wrapping_length(spec, ty, depth=0):
     return False
 
 
+EXT_IGNORED = {'sequence-extension-bit-ignored', 'oer-unknown-additions-not-skipped'}
+
+
+def has_additions(spec, ty, depth=0):
+    t = spec.resolve(ty)
+    if depth > 40:
+        return True
+    if t.kind == 'seq':
+        return bool(getattr(t, 'additions', None)) or any(has_additions(spec, m.ty, depth + 1) for m in t.members)
+    if t.kind == 'seqof':
+        return has_additions(spec, t.elem, depth + 1)
+    if t.kind == 'choice':
+        return any(has_additions(spec, a, depth + 1) for _, a in t.alts)
+    return False
+
+
 def has_ext_seq(spec, ty, depth=0):
     t = spec.resolve(ty)
     if depth > 40:
@@ -338,6 +360,31 @@ def has_ext_seq(spec, ty, depth=0):
     if t.kind == 'choice':
         return any(has_ext_seq(spec, a, depth + 1) for _, a in t.alts)
     return False
+
+
+class _Timeout(BaseException):
+    pass
+
+
+def attempt_timed(f, *a, **kw):
+    """lib.attempt with a CPU-time limit: the Python OER decoder loops for hours on a hostile quantity
+    field over zero-width elements (recorded under C08); such inputs are not judged."""
+    import signal
+    import threading
+    if threading.current_thread() is not threading.main_thread():
+        return lib.attempt(f, *a, **kw)
+
+    def onalarm(signum, frame):
+        raise _Timeout()
+    old = signal.signal(signal.SIGALRM, onalarm)
+    signal.setitimer(signal.ITIMER_REAL, 3.0)
+    try:
+        return lib.attempt(f, *a, **kw)
+    except _Timeout:
+        return ('err', 'foreign:Timeout', 'python codec did not return within 3 s')
+    finally:
+        signal.setitimer(signal.ITIMER_REAL, 0)
+        signal.signal(signal.SIGALRM, old)
 
 
 def judge_fuzz(ctx, p, fz, report):
@@ -356,7 +403,18 @@ def judge_fuzz(ctx, p, fz, report):
         ev += 1
         r1 = int(head[3])
         rep = dict(kind='fuzz', spec=spec.to_json(), text=p.text, module=m, type=n, input=data.hex()[:4000], codec=p.codec)
-        py = lib.attempt(p.compiled.decode, n, data)
+        if idx in getattr(p, 'must_decode', {}):
+            want = p.must_decode[idx]
+            tokv = parts[1] if len(parts) > 1 else ''
+            ctx.count('newer-version-inputs')
+            if r1 != len(data) or tokv != want:
+                report('decoder of this version on the encoding of a NEWER version (unknown extension additions) returned %d '
+                       '(expected %d) with struct [%s], expected the projection [%s]' % (r1, len(data), tokv[:160], want[:160]),
+                       dict(rep, expected=want[:2000]), 'newer-version')
+            continue
+        py = attempt_timed(p.compiled.decode, n, data)
+        if py[0] == 'err' and py[1] == 'foreign:Timeout':
+            ctx.count('fuzz:python-decoder-timeout (not judged)')
         pyvalid = py[0] == 'ok' and T.valid_value(spec, ty, py[1])
         if r1 < 0:
             ctx.count('fuzz:c-rejects')
@@ -393,7 +451,7 @@ def judge_fuzz(ctx, p, fz, report):
             continue
         if pyvalid:
             want = c09_driver.expected_tokens(spec, ty, py[1], codec=p.codec)
-            if want != tok1 and 'sequence-extension-bit-ignored' in ACTIVE:
+            if want != tok1 and ACTIVE & EXT_IGNORED:
                 # while that finding is open a set extension bit of a SEQUENCE makes the two decoders
                 # read different things: judge only canonical encodings
                 rr = lib.attempt(p.compiled.encode, n, py[1])
@@ -409,7 +467,9 @@ def judge_fuzz(ctx, p, fz, report):
             ctx.count('fuzz:enumeration-value-not-checked(open finding)')
         elif py[1] == 'decode' and 'oer-length-wraps' in ACTIVE and has_wrapping_length(spec, ty):
             ctx.count('fuzz:length-wrap(open finding)')
-        elif py[1] == 'decode' and not ('sequence-extension-bit-ignored' in ACTIVE and has_ext_seq(spec, ty)):
+        elif py[1] == 'decode' and 'oer-addition-length-ignored' in ACTIVE and has_additions(spec, ty):
+            ctx.count('fuzz:addition-length-not-validated(open finding)')
+        elif py[1] == 'decode' and not (ACTIVE & EXT_IGNORED and has_ext_seq(spec, ty)):
             # the Python decoder refuses these bytes (bad enumeration / choice index, bad length, ...):
             # a generated decoder that takes them has lost a check
             report('decoder accepts input %s that the Python codec rejects (%s): struct [%s]' % (
